@@ -276,7 +276,7 @@ const FORMAT_NAMES: [&str; 13] = ["wdt", "wdl", "dbc", "blp", "skin", "anim", "m
 /// own parser no longer accepts it); fewer is reported in the evidence, none is a machinery failure
 const EXPECTED_SEEDS: [usize; 13] = [7, 6, 10, 12, 8, 8, 14, 9, 8, 16, 4, 5, 17];
 /// the same for thorough (primary + additional seeds)
-const EXPECTED_SEEDS_T: [usize; 13] = [7, 6, 10, 12, 8, 8, 14, 9, 8, 16, 4, 5, 17];
+const EXPECTED_SEEDS_T: [usize; 13] = [12, 9, 15, 27, 14, 11, 23, 16, 15, 16, 7, 10, 31];
 
 // ------------------------------------------------------------------ panic site -> function cache
 
@@ -684,7 +684,24 @@ fn repro() {
         ("mpq", vec!["v1_zlib_sectored", "block_table[1].file_size", "2^31-1"]),
         ("ptch", vec!["bsd0_300", "header+0x4@", "2^31-1"]),
     ];
-    let list: Vec<(String, Vec<String>)> = if rest.len() >= 1 {
+    // named reproductions of the defects found by the thorough tier (deviation-class cases of its space)
+    let named: Vec<(&str, &str, Vec<&str>)> = vec![
+        ("m2-compquat-negate", "m2", vec!["wotlk_rich", "body+0x230@0x230", "\"value\":\"rest+1\""]),
+        ("mpq-empty-crc-unit", "mpq", vec!["v1_adpcm_mono_zlib_crc", "block_table[0].compressed_size", "\"kind\":\"field\"", "\"value\":\"0\""]),
+        ("mpq-table-pos-overflow", "mpq", vec!["nested_userdata_v4_zlib_crc_attrs", "field2", "header.bet_table_pos.lo", "header.bet_table_pos.hi", "\"value\":\"2^32-1\"", "\"value2\":\"2^32-1\""]),
+        ("blp-zune-jpeg-sof", "blp", vec!["blp2_jpeg_alpha_16x16_mips", "body+0x3d4@0x3d4", "\"value\":\"2^32-1\""]),
+    ];
+    if rest.len() == 1 && rest[0] == "m2-compquat-negate-direct" {
+        // the smallest input of the defect class, straight at the public parser of the structure
+        let bytes = [0x00u8, 0x80, 0, 0, 0, 0, 0, 0];
+        let r = std::panic::catch_unwind(|| wow_m2::chunks::m2_track::M2CompQuat::parse(&mut std::io::Cursor::new(&bytes[..])).map(|q| (q.x, q.y, q.z, q.w)).map_err(|e| e.to_string()));
+        println!("M2CompQuat::parse(00 80 00 00 00 00 00 00) -> {}", match r { Ok(v) => format!("{v:?}"), Err(_) => "PANIC".to_string() });
+        return;
+    }
+    let tier = if rest.len() == 1 && named.iter().any(|n| n.0 == rest[0]) { Tier::Thorough } else { tier };
+    let list: Vec<(String, Vec<String>)> = if let Some(n) = named.iter().find(|n| rest.len() == 1 && n.0 == rest[0]) {
+        vec![(n.1.to_string(), n.2.iter().map(|x| x.to_string()).collect())]
+    } else if rest.len() >= 1 {
         vec![(rest[0].clone(), rest[1..].to_vec())]
     } else {
         builtin.into_iter().map(|(f, v)| (f.to_string(), v.into_iter().map(|x| x.to_string()).collect())).collect()
@@ -706,6 +723,10 @@ fn repro() {
         let seed = &sp.seeds[k];
         println!("== {fmt} case #{i}: {}", sp.describe(i));
         if let Some(input) = seed.apply(&d) {
+            if let Ok(p) = std::env::var("C05_DUMP") {
+                let _ = std::fs::write(&p, &input);
+                println!("   input written to {p}");
+            }
             let diff: Vec<usize> = (0..input.len().min(seed.bytes.len())).filter(|&j| input[j] != seed.bytes[j]).collect();
             println!("   input: {} bytes (seed {} bytes); differing byte offsets: {:?}{}", input.len(), seed.bytes.len(), &diff[..diff.len().min(12)], if diff.len() > 12 { " ..." } else { "" });
             let lo = diff.first().copied().unwrap_or(0) / 16 * 16;
